@@ -51,8 +51,18 @@ def run(ctx, res):
         good = len(inner) == 1 and [canon(a) for a in call_args(inner[0])] in (["%s->data" % obj, "%s->len_data" % obj], ["%s.data" % obj, "%s.len_data" % obj])
         res.check(good, "C09.R2", site(g, "crc-over-stored-bytes"), "crc := CRC32C(data, len_data) of the same block",
                   "the checksum stored with the block is computed over %s" % ([canon(a) for a in call_args(inner[0])] if inner else canon(rhs)), g.loc(n))
-        res.check("htole32" in macs or any("htole32" in g.macros(x) for x in walk(rhs)), "C09.R2", site(g, "crc-little-endian"),
-                  "checksum converted to little-endian before it is written as raw bytes", "checksum is written in host byte order", g.loc(n))
+        le_stored = "htole32" in macs or any("htole32" in g.macros(x) for x in walk(rhs))
+        modes = framerule.crc_mode(ctx)
+        if modes == {"encoded"}:
+            # the field's *value* is encoded little-endian when the block is written (rules/framerule.py): it must be the
+            # host-order checksum, not an already converted one
+            res.check(not le_stored, "C09.R2", site(g, "crc-little-endian"),
+                      "checksum kept in host order and encoded little-endian where it is written",
+                      "checksum is converted to little-endian when stored and encoded again when written: wrong on big-endian hosts", g.loc(n))
+        else:
+            res.check(le_stored and modes == {"raw"}, "C09.R2", site(g, "crc-little-endian"),
+                      "checksum converted to little-endian before it is written as raw bytes",
+                      "checksum is written in host byte order" if modes <= {"raw"} else "checksum reaches the file raw on some paths and encoded on others", g.loc(n))
         # after the last definition of data / len_data on every path
         evp = APE.run(prog, cg, g, bound=APE.BOUND)
         for p in evp.paths:
